@@ -1,0 +1,22 @@
+// Copyright (c) Tailscale Inc & AUTHORS
+// SPDX-License-Identifier: BSD-3-Clause
+
+//go:build verif
+
+package server
+
+import (
+	"context"
+
+	"github.com/aws/aws-sdk-go-v2/service/s3"
+	"github.com/tailscale/setec/db"
+)
+
+// VerifRunPeriodicBackup runs the server's periodic backup loop for the given
+// database, uploading to bucket through client, until ctx ends. It exists
+// only in builds with the "verif" tag, so that the loop can be driven with an
+// injected S3 client (no network) under a virtual clock.
+func VerifRunPeriodicBackup(ctx context.Context, d *db.DB, client *s3.Client, bucket string) {
+	s := &Server{db: d, backupClient: client, backupBucket: bucket}
+	s.periodicBackup(ctx)
+}
